@@ -52,7 +52,15 @@ RULE = ("Detector: Hypothesis draws bits (1..32; additionally EVERY bits value 1
         "(Output buffers) recomposite_bayer / composite_bayer are called with output= none | a fresh buffer | one buffer for two consecutive "
         "calls with different planes | (composite) the buffer IS the r / g1 / g2 / b plane, whose own sites must keep their samples while the "
         "other sites receive the other colours (the four colour sites are disjoint; holds on the unchanged code) | (recomposite) the mosaic "
-        "whose decomposed planes (views, one edited in place) are written back into it.  prnu and dcnu may be one and the same ones-map object.")
+        "whose decomposed planes (views, one edited in place) are written back into it.  prnu and dcnu may be one and the same ones-map object.  "
+        "Round-7 hardening: (value patterns, bindown / tile) float data to bin / tile come in a drawn pattern - mean removed (total = rounding "
+        "residue), sign-alternating, alternating constant and point-antisymmetric (exact cancellation), decimal fractions 0.1 + 0.2 - 0.3, every "
+        "block's mean removed, exact zeros inside, one dominant sample, all zero - and an overall magnitude 1e-17 .. 1e30; whole-number data get "
+        "the sign / zero patterns; every oracle is per bin / per output sample (explicit block sums, np.repeat / N), totals are additional.  "
+        "(Spelling) the layout name is handed to the routines that accept any capitalisation on the unchanged tree - composite_bayer, "
+        "recomposite_bayer, demosaic_malvar, wb_prescale in plain mode - in lower / upper / capitalised / mixed case, by keyword or positionally; "
+        "decomposite_bayer, demosaic_deinterlace and wb_prescale(safe=True) compare the name as given and get the lower-case name only; the safe "
+        "flag of the white-balance routines is True / numpy.True_ / 1.")
 ASSUMPTIONS = ["numpy elementwise arithmetic, np.repeat and float->unsigned casts of in-range values are correct",
                "with a non-uniform prnu map the dark current is zero and vice versa (the property does not say whether "
                "PRNU applies to dark signal; both readings then agree)",
@@ -799,6 +807,16 @@ DTYPES = ['float64', 'float64', 'float32', 'uint16', 'int32', 'uint8', 'uint32',
 VALUE_LEVELS = ['low', 'low', 'mid', 'top', 'signed']
 
 
+# spelling of the layout name: wb_prescale, composite_bayer, recomposite_bayer and demosaic_malvar lower-case it (any capitalisation means
+# the same layout; observed on the unchanged tree); decomposite_bayer and demosaic_deinterlace compare it as given and are only ever
+# handed the lower-case name here
+SPELLINGS = ['lower', 'lower', 'upper', 'upper', 'capitalised', 'mixed']
+
+
+def spell(cfa, how):
+    return {'lower': cfa, 'upper': cfa.upper(), 'capitalised': cfa.capitalize(), 'mixed': cfa[0] + cfa[1:3].upper() + cfa[3]}[how]
+
+
 def site_colours(shape, cfa):
     """harness' own model: 0=R, 1=G1 (green in the top row of a cell), 2=G2, 3=B at every site, from index parity"""
     yy, xx = np.indices(shape)
@@ -821,7 +839,8 @@ def strat_bayer(tier):
     return st.fixed_dictionaries({'half': st.tuples(half, half).map(list), 'cfa': st.sampled_from(CFAS), 'dtype': st.sampled_from(DTYPES),
                                   'level': st.sampled_from(VALUE_LEVELS), 'layout': st.sampled_from(LAYOUTS), 'before': st.booleans(),
                                   'seed': U.seeds, 'out_arg': st.booleans(), 'out_mode': st.sampled_from(OUT_MODES),
-                                  'failed_call': st.sampled_from(['none', 'none', 'none', 'bad-cfa', 'odd-mosaic', 'not-an-array', 'bad-output'])})
+                                  'failed_call': st.sampled_from(['none', 'none', 'none', 'bad-cfa', 'odd-mosaic', 'not-an-array', 'bad-output']),
+                                  'spelling': st.sampled_from(SPELLINGS), 'cfa_positional': st.booleans()})
 
 
 def _marker(shape, dtype, seed, salt, level='low', offset=0):
@@ -871,6 +890,22 @@ def check_bayer(case, ctx):
     img = relayout(img0.copy(), lay)
     isnap = snapshot(img)
     col = site_colours((m, n), cfa)
+    # the name as the caller writes it for the routines that accept any capitalisation; handed over by keyword or positionally
+    spelling = case.get('spelling', 'lower')
+    cfa_s = spell(cfa, spelling)
+    other_s = spell('bggr' if cfa == 'rggb' else 'rggb', spelling)
+    ctx.label('spelling:' + spelling, 'spelling:%s:%s' % (spelling, cfa))
+    cfa_pos = case.get('cfa_positional', False)
+
+    def recomposite(planes_, **kw):
+        if cfa_pos:
+            return ctx.call(bayer.recomposite_bayer, *planes_, cfa_s, *([kw['output']] if 'output' in kw else []))
+        return ctx.call(bayer.recomposite_bayer, *planes_, cfa=cfa_s, **kw)
+
+    def composite(planes_, **kw):
+        if cfa_pos:
+            return ctx.call(bayer.composite_bayer, *planes_, cfa_s, *([kw['output']] if 'output' in kw else []))
+        return ctx.call(bayer.composite_bayer, *planes_, cfa=cfa_s, **kw)
 
     def untouched(fn):
         require_unchanged(ctx, fn, ['mosaic'], [img], isnap)
@@ -912,9 +947,9 @@ def check_bayer(case, ctx):
             # a buffer of the wrong shape is refused; the right one is used next
             caught(ctx, fc, bayer.recomposite_bayer, *pl, cfa=cfa, output=np.zeros((m + 1, n + 3), dtype=dt))
             caught(ctx, fc, bayer.recomposite_bayer, *pl, cfa=cfa, output=7)
-        rec = ctx.call(bayer.recomposite_bayer, *pl, cfa=cfa, output=buf)
+        rec = recomposite(pl, output=buf)
     else:
-        rec = ctx.call(bayer.recomposite_bayer, *pl, cfa=cfa)
+        rec = recomposite(pl)
     U.check_equal(np.asarray(rec), img0, 'recomposite(decomposite):' + cfa, 'recomposite(decomposite(img)) != img')
     if with_buf:     # "output array": the caller's buffer is what gets filled
         U.check_equal(np.asarray(buf), img0, 'recomposite:output-not-filled', 'the array passed as output= does not hold the mosaic afterwards')
@@ -924,10 +959,10 @@ def check_bayer(case, ctx):
     ind = [relayout(p.copy(), lay) for p in ind0]
     if out_mode == 'reused':
         # the buffer that still holds the previous mosaic is handed over again with four other planes
-        rec2 = np.asarray(ctx.call(bayer.recomposite_bayer, *ind, cfa=cfa, output=buf))
+        rec2 = np.asarray(recomposite(ind, output=buf))
         U.check_equal(np.asarray(buf), rec2, 'recomposite:output-not-filled', 'the re-used array passed as output= does not hold the second mosaic afterwards')
     else:
-        rec2 = np.asarray(ctx.call(bayer.recomposite_bayer, *ind, cfa=cfa))
+        rec2 = np.asarray(recomposite(ind))
     U.check_shape(rec2, (m, n), 'recomposite')
     rb = ':output-reused' if out_mode == 'reused' else ''
     for k, name in enumerate(names4):
@@ -947,7 +982,7 @@ def check_bayer(case, ctx):
             edited = np.array(vplanes[which], copy=True)[::-1, ::-1]
             vplanes[which][...] = edited
             expect[col == which] = edited.ravel()
-        back = ctx.call(bayer.recomposite_bayer, *vplanes, cfa=cfa, output=work)
+        back = recomposite(vplanes, output=work)
         U.check_equal(np.asarray(back), expect, 'recomposite:%s:output-is-the-decomposed-mosaic' % cfa,
                       'planes of decomposite_bayer(mosaic) (plane %s edited in place) written back with output=mosaic' % names4[which])
         U.check_equal(np.asarray(work), expect, 'recomposite:output-not-filled', 'the mosaic passed as output= does not hold the recomposited planes afterwards')
@@ -967,18 +1002,18 @@ def check_bayer(case, ctx):
         cbuf = dense[kout]
         dsnap[kout] = None
         cb = ':output-is-the-%s-plane' % names4[kout]
-        comp = np.asarray(ctx.call(bayer.composite_bayer, *dense, cfa=cfa, output=cbuf))
+        comp = np.asarray(composite(dense, output=cbuf))
         U.check_equal(np.asarray(cbuf), comp, 'composite:output-not-filled', 'the %s plane passed as output= does not hold the composite afterwards' % names4[kout])
     elif with_buf:
         cbuf = relayout(np.zeros((m, n), dtype=dt), lay)
         if out_mode == 'reused':
             # first use of the buffer: the same planes in another role order; second use below is the checked one
             cb = ':output-reused'
-            ctx.call(bayer.composite_bayer, dense[3], dense[2], dense[1], dense[0], cfa=cfa, output=cbuf)
-        comp = np.asarray(ctx.call(bayer.composite_bayer, *dense, cfa=cfa, output=cbuf))
+            composite([dense[3], dense[2], dense[1], dense[0]], output=cbuf)
+        comp = np.asarray(composite(dense, output=cbuf))
         U.check_equal(np.asarray(cbuf), comp, 'composite:output-not-filled', 'the array passed as output= does not hold the composite afterwards')
     else:
-        comp = np.asarray(ctx.call(bayer.composite_bayer, *dense, cfa=cfa))
+        comp = np.asarray(composite(dense))
     U.check_shape(comp, (m, n), 'composite')
     for k, name in enumerate(names4):
         U.check_equal(comp[col == k], dense0[k][col == k], 'composite:%s:%s%s' % (cfa, name, cb), 'composite must take plane %s at the %s sites%s' % (
@@ -990,7 +1025,7 @@ def check_bayer(case, ctx):
         # history inside the process: a mosaic of the same shape in another dtype first
         other_dt = 'float32' if dt != 'float32' else 'uint16'
         ctx.call(bayer.demosaic_malvar, _marker((m, n), other_dt, case['seed'], 41), 'bggr' if cfa == 'rggb' else 'rggb')
-    rgb = np.asarray(ctx.call(bayer.demosaic_malvar, img, cfa))
+    rgb = np.asarray(ctx.call(bayer.demosaic_malvar, img, cfa_s))
     rgb_kept = np.array(rgb, copy=True)
     untouched('demosaic_malvar')
     U.check_shape(rgb, (m, n, 3), 'demosaic_malvar')
@@ -1002,10 +1037,10 @@ def check_bayer(case, ctx):
                  'site %s (%s of %s): raw %r (%s), demosaicked %s channel %r (%s); %d sites changed' % (
                      i, ('r', 'g1', 'g2', 'b')[col[i]], cfa, img0[i], img0.dtype, 'RGB'[chan[i]], native[i], native.dtype, int(bad.sum())))
     # the other layout swaps R and B (metamorphic)
-    other = np.asarray(ctx.call(bayer.demosaic_malvar, img, 'bggr' if cfa == 'rggb' else 'rggb'))
+    other = np.asarray(ctx.call(bayer.demosaic_malvar, img, other_s))
     # a second mosaic of the same shape and dtype: the first result is the caller's and stays what it was
     img_b = relayout(_marker((m, n), dt, case['seed'], 42, level), lay)
-    rgb_b = np.asarray(ctx.call(bayer.demosaic_malvar, img_b, cfa))
+    rgb_b = np.asarray(ctx.call(bayer.demosaic_malvar, img_b, cfa=cfa_s))
     require_kept(ctx, 'demosaic_malvar', rgb, rgb_kept, 'two more mosaics of the same shape were demosaicked')
     nat_b = np.take_along_axis(rgb_b, chan[..., None], axis=2)[..., 0]
     U.check_equal(nat_b, np.asarray(img_b), 'demosaic_malvar:%s:native:second-mosaic' % cfa, 'second mosaic of the same shape: native samples')
@@ -1014,7 +1049,7 @@ def check_bayer(case, ctx):
     if dt.startswith('float'):
         fv = 7.25 * {'low': 1.0, 'signed': -1.0, 'mid': 1e-30, 'top': 1e30 if dt == 'float32' else 1e300}[level]
         flat = relayout(np.full((m, n), fv, dtype=dt), lay)
-        frgb = np.asarray(ctx.call(bayer.demosaic_malvar, flat, cfa))
+        frgb = np.asarray(ctx.call(bayer.demosaic_malvar, flat, cfa_s))
         U.check_close(frgb, np.full((m, n, 3), float(flat[0, 0])), 1e-12 if dt == 'float64' else 1e-5, 'demosaic_malvar:flat-field', 'flat field must stay flat')
     # deinterlace
     di = np.asarray(ctx.call(bayer.demosaic_deinterlace, img, cfa))
@@ -1036,7 +1071,8 @@ def strat_wb(tier):
                                   'sat': st.one_of(sat, st.tuples(sat, sat, sat, sat).map(list)), 'seed': U.seeds,
                                   'gform': st.sampled_from(FORMS), 'satseq': st.sampled_from(['list', 'tuple', 'ndarray', 'np64']),
                                   'layout': st.sampled_from(LAYOUTS),
-                                  'failed_call': st.sampled_from(['none', 'none', 'bad-cfa', 'safe-without-saturation'])})
+                                  'failed_call': st.sampled_from(['none', 'none', 'bad-cfa', 'safe-without-saturation']),
+                                  'spelling': st.sampled_from(SPELLINGS), 'safeform': st.sampled_from(['bool', 'bool', 'np.bool_', 'int'])})
 
 
 def _common_ratio(ctx, ratios, who):
@@ -1072,7 +1108,11 @@ def check_wb(case, ctx):
     gains = [scalar_form(g, gform) for g in (wr, wg1, wg2, wb)]
     sarg = sat_arg(sat)
     asnap = snapshot(sarg, *gains)
-    kw = {'safe': True, 'saturation': sarg} if safe else {}
+    # the safe flag as the object True, a numpy boolean or the integer 1 (documented "bool"; any truthy value switches the mode on)
+    safe_arg = {'bool': True, 'np.bool_': np.True_, 'int': 1}[case.get('safeform', 'bool')]
+    if safe:
+        ctx.label('safe-flag-as:' + case.get('safeform', 'bool'))
+    kw = {'safe': safe_arg, 'saturation': sarg} if safe else {}
     # requests that the library refuses before it touches the in-place target (an unknown layout, safe mode without a saturation
     # level); an ill-typed gain is not among them: the documented in-place update has then already been applied to some sites
     fc = case.get('failed_call', 'none')
@@ -1081,7 +1121,11 @@ def check_wb(case, ctx):
         caught(ctx, fc, bayer.wb_prescale, mosaic, *gains, 'grbg', **kw)
     elif fc == 'safe-without-saturation':
         caught(ctx, fc, bayer.wb_prescale, mosaic, *gains, cfa, safe=True)
-    ctx.call(bayer.wb_prescale, mosaic, *gains, cfa, **kw)
+    # other capitalisations of the layout name are accepted by wb_prescale in plain mode only (in safe mode it hands the name as given
+    # to the case-sensitive decomposite_bayer, which refuses it on the unchanged tree): they are generated for plain mode
+    spelling = case.get('spelling', 'lower') if not safe else 'lower'
+    ctx.label('spelling:' + spelling, 'spelling:%s:%s' % (spelling, cfa))
+    ctx.call(bayer.wb_prescale, mosaic, *gains, spell(cfa, spelling), **kw)
     require_unchanged(ctx, 'wb_prescale', ['saturation', 'wr', 'wg1', 'wg2', 'wb'], [sarg] + gains, asnap)
     rt = 1e-6 if dt == 'float32' else 1e-13
     applied = mosaic.astype(np.float64) / mosaic0.astype(np.float64)
@@ -1101,7 +1145,7 @@ def check_wb(case, ctx):
     sat3 = sat_arg(list(sat[:3]) if isinstance(sat, list) else sat)
     g3a = [gains[0], gains[1], gains[3]]
     asnap = snapshot(sat3, *g3a)
-    kw = {'safe': True, 'saturation': sat3} if safe else {}
+    kw = {'safe': safe_arg, 'saturation': sat3} if safe else {}
     if fc == 'safe-without-saturation':
         caught(ctx, fc, bayer.wb_postscale, rgb, *g3a, safe=True)
     ctx.call(bayer.wb_postscale, rgb, *g3a, **kw)
